@@ -120,7 +120,8 @@ Proof.
   destruct fp as [|s|l]; cbn [rel_cwd].
   - intros j H. discriminate.
   - intros j H. inversion H. eexists. reflexivity.
-  - apply rel_json_decodes.
+  - intros j H. destruct (first_some (map (fun s => relative_parts cwd (parts s)) l)); [|destruct l; [discriminate|]];
+      inversion H; eexists; reflexivity.
 Qed.
 
 Lemma rel_pkg_decodes pkg fp : res_decodes (rel_pkg pkg fp).
@@ -313,13 +314,15 @@ Example example_derive :
   /\ g_relative_package gi = Ok (JStr "pkg/__init__.py") /\ g_parsed gi = [mkSection "text" None (JStr "Doc.")].
 Proof. vm_compute. repeat split. Qed.
 
-(* serialisation itself fails in full mode: for a builtin module (no file path), and for a namespace package none of
-   whose directories lies below the working directory *)
+(* serialisation itself fails in full mode for a builtin module (no file path) *)
 Lemma refuted_fullD_builtin : enc_fullD (root_ctx w_cwd) (w_module [] FPNone) = Err EBuiltin.
 Proof. vm_compute. reflexivity. Qed.
 
-Lemma refuted_fullD_namespace :
-  let t := w_module [] (FPList ["/q/ns"]) in
-  rep t = true /\ enc_fullD (root_ctx w_cwd) t = Err EValue /\
-  exists j, enc_fullD (root_ctx ["/"; "q"]) t = Ok j /\ decode j = Ok (PTree t).
-Proof. split; [vm_compute; reflexivity|]. split; [vm_compute; reflexivity|]. eexists. split; vm_compute; reflexivity. Qed.
+(* repaired (bb0db70, was F13): a namespace package none of whose directories lies below the working directory
+   serialises, with the absolute path of its first directory, and round-trips *)
+Example fixed_fullD_namespace :
+  let t := w_module [] (FPList ["/q/ns"; "/r/ns"]) in
+  rep t = true /\
+  g_relative (derive (root_ctx w_cwd) t) = Ok (JStr "/q/ns") /\ g_relative (derive (root_ctx ["/"; "r"]) t) = Ok (JStr "ns") /\
+  (exists j, enc_fullD (root_ctx w_cwd) t = Ok j /\ decode j = Ok (PTree t)).
+Proof. split; [vm_compute; reflexivity|]. split; [vm_compute; reflexivity|]. split; [vm_compute; reflexivity|]. eexists. split; vm_compute; reflexivity. Qed.
